@@ -372,7 +372,9 @@ Proof.
   - (* the whole chunk went through single-byte steps *)
     subst rest. cbn [lenN] in *. assert (bulk = 0) by lia. subst bulk.
     replace (lenN (@nil N) - lenN (@nil N) mod 3 =? 0) with true in * by reflexivity.
-    cbn [takeN dropN ssteps] in *. inversion H3; subst. rewrite !app_nil_r. reflexivity.
+    cbn [takeN dropN ssteps] in *.
+    assert (Ho : o3 = []) by congruence. assert (Ha : eabs c3 = eabs c1) by congruence.
+    rewrite Ho, Ha. reflexivity.
   - (* no buffered bits: bulk through encode_raw *)
     assert (Ha : eabs c1 = (0, 0)).
     { unfold eabs. rewrite Hz. change (2 ^ 0) with 1. rewrite N.mod_1_r. reflexivity. }
@@ -449,3 +451,269 @@ Proof.
   apply ssteps_len in H; [|exact Hv]. cbn [fst eabs] in H. destruct H as [H Hv'].
   unfold BASE64_ENCODE_LENGTH. unfold evalid in Hv. lia.
 Qed.
+
+(* ================================================================== *)
+(* 5. the decoder                                                        *)
+
+(* reachable contexts: bits in {0,2,4,6}, 16-bit word, at most 3 padding characters seen *)
+Definition dvalid (c : dctx) : Prop :=
+  (d_bits c = 0 \/ d_bits c = 2 \/ d_bits c = 4 \/ d_bits c = 6) /\ d_word c < 65536 /\ d_pad c <= 3.
+
+Lemma dvalid_init : dvalid dctx_init.
+Proof. unfold dvalid, dctx_init; cbn. repeat split; auto; lia. Qed.
+
+(* --- facts about the regenerated 256-entry decode table, each by a complete sweep --- *)
+Lemma dec_lookup_mod c : dec_lookup (c mod 256) = dec_lookup c.
+Proof. unfold dec_lookup. rewrite N.mod_mod by lia. reflexivity. Qed.
+
+Lemma sweep256 (f : N -> bool) : forallb f all_bytes = true -> forall c, f (c mod 256) = true.
+Proof. intros H c. apply forallb_bytes; [exact H|]. apply N.mod_lt. lia. Qed.
+
+Lemma dec_tbl_range c : (-3 <= dec_lookup c < 64)%Z.
+Proof.
+  rewrite <- dec_lookup_mod.
+  pose proof (sweep256 (fun c => ((-3 <=? dec_lookup c) && (dec_lookup c <? 64))%Z)
+                ltac:(vm_compute; reflexivity) c) as H. cbv beta in H. lia.
+Qed.
+
+(* symbols decode to their value; '=' is TABLE_END *)
+Lemma dec_E i : i < 64 -> dec_lookup (E i) = Z.of_N i.
+Proof.
+  intros Hi.
+  pose proof (sweep256 (fun i => if i <? 64 then (dec_lookup (E i) =? Z.of_N i)%Z else true)
+                ltac:(vm_compute; reflexivity) i) as H. cbv beta in H.
+  rewrite N.mod_small in H by lia. destruct (i <? 64) eqn:E64; lia.
+Qed.
+
+Lemma dec_PAD : dec_lookup PAD = (-3)%Z.
+Proof. vm_compute. reflexivity. Qed.
+
+(* conversely: a byte with a non-negative table entry is the alphabet symbol of that value;
+   entry -3 is only '='; entry -2 is exactly the six white space bytes *)
+Lemma dec_data_inv c : c < 256 -> (0 <= dec_lookup c)%Z -> c = E (Z.to_N (dec_lookup c)).
+Proof.
+  intros Hc Hd.
+  pose proof (sweep256 (fun c => if (0 <=? dec_lookup c)%Z then c =? E (Z.to_N (dec_lookup c)) else true)
+                ltac:(vm_compute; reflexivity) c) as H. cbv beta in H.
+  rewrite N.mod_small in H by lia. destruct (0 <=? dec_lookup c)%Z eqn:E0; lia.
+Qed.
+
+Lemma dec_end_inv c : c < 256 -> dec_lookup c = (-3)%Z -> c = PAD.
+Proof.
+  intros Hc Hd.
+  pose proof (sweep256 (fun c => if (dec_lookup c =? -3)%Z then c =? PAD else true)
+                ltac:(vm_compute; reflexivity) c) as H. cbv beta in H.
+  rewrite N.mod_small in H by lia. destruct (dec_lookup c =? -3)%Z eqn:E0; lia.
+Qed.
+
+Lemma dec_ws_iff c : c < 256 -> (dec_lookup c = (-2)%Z <-> b64_ws c = true).
+Proof.
+  intros Hc.
+  pose proof (sweep256 (fun c => Bool.eqb (dec_lookup c =? -2)%Z (b64_ws c))
+                ltac:(vm_compute; reflexivity) c) as H. cbv beta in H.
+  rewrite N.mod_small in H by lia. apply Bool.eqb_prop in H.
+  destruct (b64_ws c); split; intros; try lia; try discriminate.
+Qed.
+
+(* --- decode_single in arithmetic form --- *)
+Definition dstep (ctx : dctx) (c : N) : dctx * sres :=
+  let d := dec_lookup c in
+  if (d =? -1)%Z then (ctx, SErr)
+  else if (d =? -2)%Z then (ctx, SNone)
+  else if (d =? -3)%Z then
+    if (d_bits ctx =? 0) || (2 <? d_pad ctx) || negb (d_word ctx mod 2 ^ d_bits ctx =? 0) then (ctx, SErr)
+    else (mkD (d_word ctx) (d_bits ctx - 2) (d_pad ctx + 1), SNone)
+  else if negb (d_pad ctx =? 0) then (ctx, SErr)
+  else let w := (d_word ctx * 64 + Z.to_N d) mod 65536 in
+       if d_bits ctx =? 0 then (mkD w 6 0, SNone)
+       else (mkD w (d_bits ctx - 2) 0, SByte ((w / 2 ^ (d_bits ctx - 2)) mod 256)).
+
+Lemma decode_single_dstep ctx c : dvalid ctx -> decode_single ctx c = dstep ctx c.
+Proof.
+  destruct ctx as [w b p]. unfold dvalid. cbn [d_bits d_word d_pad]. intros [Hb [Hw Hp]].
+  unfold decode_single, dstep, TABLE_INVALID, TABLE_SPACE, TABLE_END. cbn [d_bits d_word d_pad].
+  pose proof (dec_tbl_range c) as Hr. set (d := dec_lookup c) in *.
+  destruct (d =? -1)%Z eqn:E1; [reflexivity|].
+  destruct (d =? -2)%Z eqn:E2; [reflexivity|].
+  destruct (d =? -3)%Z eqn:E3.
+  - rewrite N.shiftl_1_l, N.sub_1_r, <- N.ones_equiv, N.land_ones.
+    destruct (b =? 0) eqn:Eb; [reflexivity|]. destruct (2 <? p) eqn:Ep; [reflexivity|]. cbn [orb].
+    destruct (w mod 2 ^ b =? 0) eqn:Ew; cbn [negb]; [|reflexivity].
+    f_equal. f_equal; lia.
+  - replace ((0 <=? d) && (d <? 64))%Z with true by lia.
+    destruct (p =? 0) eqn:Ep0; cbn [negb]; [|reflexivity].
+    assert (p = 0) by lia. subst p.
+    rewrite (lor_shiftl_add w (Z.to_N d) 6) by (pow2; lia). pow2.
+    replace ((b + 6) mod 256) with (b + 6) by lia.
+    destruct (b =? 0) eqn:Eb.
+    + assert (b = 0) by lia. subst b. reflexivity.
+    + replace (8 <=? b + 6) with true by lia.
+      replace (b + 6 - 8) with (b - 2) by lia.
+      rewrite N.shiftr_div_pow2. reflexivity.
+Qed.
+
+Lemma dstep_acct ctx c ctx' r : dvalid ctx -> dstep ctx c = (ctx', r) ->
+  dvalid ctx' /\
+  match r with
+  | SByte b => d_bits ctx' + 8 = d_bits ctx + 6 /\ b < 256
+  | SNone => d_bits ctx' <= d_bits ctx + 6
+  | SErr => ctx' = ctx
+  | SAbort => False
+  end.
+Proof.
+  destruct ctx as [w b p]. unfold dvalid. cbn [d_bits d_word d_pad]. intros [Hb [Hw Hp]].
+  unfold dstep. cbn [d_bits d_word d_pad].
+  pose proof (dec_tbl_range c) as Hr. set (d := dec_lookup c) in *.
+  destruct (d =? -1)%Z eqn:E1; [intros H; inversion H; subst; cbn; repeat split; auto|].
+  destruct (d =? -2)%Z eqn:E2; [intros H; inversion H; subst; cbn; repeat split; auto; lia|].
+  destruct (d =? -3)%Z eqn:E3.
+  - destruct ((b =? 0) || (2 <? p) || negb (w mod 2 ^ b =? 0)) eqn:Ec;
+      intros H; inversion H; subst; cbn [d_bits d_word d_pad]; [repeat split; auto|].
+    repeat split; try lia.
+  - destruct (negb (p =? 0)) eqn:Ep0; [intros H; inversion H; subst; cbn; repeat split; auto|].
+    destruct (b =? 0) eqn:Eb; intros H; inversion H; subst; cbn [d_bits d_word d_pad].
+    + repeat split; try lia; try (apply N.mod_lt; lia).
+    + repeat split; try lia; try (apply N.mod_lt; lia).
+Qed.
+
+(* --- T: bytes stored by one decode_update call, accepted or not --- *)
+Lemma decode_update_acct src : forall ctx ctx' u, dvalid ctx -> decode_update ctx src = (ctx', u) ->
+  dvalid ctx' /\ (forall w, u <> UAbort w) /\
+  8 * lenN (uwritten u) + (match u with UOk _ => d_bits ctx' | _ => 0 end) <= d_bits ctx + 6 * lenN src.
+Proof.
+  induction src as [|c r IH]; intros ctx ctx' u Hv H; cbn [decode_update] in H.
+  - inversion H; subst. split; [exact Hv|]. split; [intros ?; discriminate|]. cbn [uwritten lenN]. lia.
+  - rewrite decode_single_dstep in H by exact Hv.
+    destruct (dstep ctx c) as [c1 s] eqn:Es. destruct (dstep_acct ctx c c1 s Hv Es) as [Hv1 Hs].
+    destruct s as [| |b|].
+    + inversion H; subst. split; [exact Hv|]. split; [intros ?; discriminate|]. cbn [uwritten lenN]. lia.
+    + destruct (IH c1 ctx' u Hv1 H) as [Hv' [Hna Hle]]. cbn [lenN].
+      split; [exact Hv'|]. split; [exact Hna|]. lia.
+    + destruct (decode_update c1 r) as [c2 u2] eqn:E2. inversion H; subst.
+      destruct (IH c1 ctx' u2 Hv1 E2) as [Hv' [Hna Hle]]. destruct Hs as [Hs _]. cbn [lenN].
+      split; [exact Hv'|]. split.
+      * intros w. destruct u2; cbn [ucons]; try discriminate. intros Hx. inversion Hx; subst.
+        apply (Hna written). reflexivity.
+      * destruct u2; cbn [ucons uwritten lenN] in *; lia.
+    + destruct Hs.
+Qed.
+
+Theorem decode_update_bounded ctx src : dvalid ctx ->
+  let '(ctx', u) := decode_update ctx src in
+  dvalid ctx' /\ (forall w, u <> UAbort w) /\ lenN (uwritten u) <= BASE64_DECODE_LENGTH (lenN src).
+Proof.
+  intros Hv. destruct (decode_update ctx src) as [ctx' u] eqn:E.
+  destruct (decode_update_acct src ctx ctx' u Hv E) as [Hv' [Hna Hle]].
+  split; [exact Hv'|]. split; [exact Hna|]. unfold BASE64_DECODE_LENGTH.
+  destruct Hv as [Hb _].
+  assert (8 * lenN (uwritten u) <= 6 + 6 * lenN src) by (destruct u; lia).
+  lia.
+Qed.
+
+(* --- decode_update over the arithmetic step --- *)
+Fixpoint dupd (ctx : dctx) (src : bytes) : dctx * ures :=
+  match src with
+  | [] => (ctx, UOk [])
+  | c :: r =>
+    match dstep ctx c with
+    | (ctx', SErr) => (ctx', UFail [])
+    | (ctx', SAbort) => (ctx', UAbort [])
+    | (ctx', SNone) => dupd ctx' r
+    | (ctx', SByte b) => let '(c2, u) := dupd ctx' r in (c2, ucons b u)
+    end
+  end.
+
+Lemma decode_update_dupd src : forall ctx, dvalid ctx -> decode_update ctx src = dupd ctx src.
+Proof.
+  induction src as [|c r IH]; intros ctx Hv; cbn [decode_update dupd]; [reflexivity|].
+  rewrite decode_single_dstep by exact Hv.
+  destruct (dstep ctx c) as [c1 s] eqn:Es. destruct (dstep_acct ctx c c1 s Hv Es) as [Hv1 _].
+  destruct s; try reflexivity; rewrite IH by exact Hv1; reflexivity.
+Qed.
+
+Lemma dstep_data0 w i : i < 64 ->
+  dstep (mkD w 0 0) (E i) = (mkD ((w * 64 + i) mod 65536) 6 0, SNone).
+Proof.
+  intros Hi. unfold dstep. rewrite dec_E by exact Hi. cbn [d_bits d_word d_pad].
+  replace (Z.of_N i =? -1)%Z with false by lia. replace (Z.of_N i =? -2)%Z with false by lia.
+  replace (Z.of_N i =? -3)%Z with false by lia. rewrite N2Z.id. reflexivity.
+Qed.
+
+Lemma dstep_dataB w b i : i < 64 -> b <> 0 ->
+  dstep (mkD w b 0) (E i) =
+  (mkD ((w * 64 + i) mod 65536) (b - 2) 0, SByte ((((w * 64 + i) mod 65536) / 2 ^ (b - 2)) mod 256)).
+Proof.
+  intros Hi Hb. unfold dstep. rewrite dec_E by exact Hi. cbn [d_bits d_word d_pad].
+  replace (Z.of_N i =? -1)%Z with false by lia. replace (Z.of_N i =? -2)%Z with false by lia.
+  replace (Z.of_N i =? -3)%Z with false by lia. rewrite N2Z.id.
+  replace (b =? 0) with false by lia. reflexivity.
+Qed.
+
+Lemma dstep_pad w b p : b <> 0 -> p <= 2 -> w mod 2 ^ b = 0 ->
+  dstep (mkD w b p) PAD = (mkD w (b - 2) (p + 1), SNone).
+Proof.
+  intros Hb Hp Hw. unfold dstep. rewrite dec_PAD. cbn [d_bits d_word d_pad].
+  change (-3 =? -1)%Z with false. change (-3 =? -2)%Z with false. change (-3 =? -3)%Z with true.
+  rewrite Hw. replace (b =? 0) with false by lia. replace (2 <? p) with false by lia. reflexivity.
+Qed.
+
+Lemma mod_chain x y : (x mod 65536 * 64 + y) mod 65536 = (x * 64 + y) mod 65536.
+Proof. lia. Qed.
+
+Definition q_word (w a b c : N) : N :=
+  ((((w * 64 + a / 4) mod 65536 * 64 + (a mod 4 * 16 + b / 16)) mod 65536 * 64 +
+    (b mod 16 * 4 + c / 64)) mod 65536 * 64 + c mod 64) mod 65536.
+
+Lemma dupd_quartet w a b c rest : a < 256 -> b < 256 -> c < 256 ->
+  exists w', dupd (mkD w 0 0) (grp a b c ++ rest) =
+             let '(c2, u) := dupd (mkD w' 0 0) rest in (c2, ucons a (ucons b (ucons c u))).
+Proof.
+  intros Ha Hb Hc. unfold grp. cbn [app dupd].
+  rewrite dstep_data0 by lia.
+  rewrite dstep_dataB by lia. change (6 - 2) with 4.
+  rewrite dstep_dataB by lia. change (4 - 2) with 2.
+  rewrite dstep_dataB by lia. change (2 - 2) with 0.
+  exists (q_word w a b c). unfold q_word. pow2.
+  match goal with |- context [dupd ?st rest] => destruct (dupd st rest) as [c2 u] end.
+  rewrite !mod_chain.
+  f_equal. f_equal; [lia|]. f_equal; [lia|]. f_equal. lia.
+Qed.
+
+Lemma dupd_enc_spec x : forallb is_byte x = true ->
+  forall w, exists c', dupd (mkD w 0 0) (enc_spec x) = (c', UOk x) /\ d_bits c' = 0.
+Proof.
+  revert x. apply (list_ind3 (fun x => forallb is_byte x = true ->
+    forall w, exists c', dupd (mkD w 0 0) (enc_spec x) = (c', UOk x) /\ d_bits c' = 0)).
+  - intros _ w. eexists. split; reflexivity.
+  - intros a Hb w. cbn [forallb] in Hb. apply andb_true_iff in Hb as [Ha _]. apply byte_lt in Ha.
+    cbn [enc_spec dupd].
+    rewrite dstep_data0 by lia. rewrite dstep_dataB by lia. change (6 - 2) with 4.
+    rewrite dstep_pad by (pow2; lia). change (4 - 2) with 2. change (0 + 1) with 1.
+    rewrite dstep_pad by (pow2; lia). change (2 - 2) with 0.
+    eexists. split; [cbn [ucons]; pow2; f_equal; f_equal; f_equal; lia | reflexivity].
+  - intros a b Hb w. cbn [forallb] in Hb. apply andb_true_iff in Hb as [Ha Hb].
+    apply andb_true_iff in Hb as [Hb _]. apply byte_lt in Ha, Hb.
+    cbn [enc_spec dupd].
+    rewrite dstep_data0 by lia. rewrite dstep_dataB by lia. change (6 - 2) with 4.
+    rewrite dstep_dataB by lia. change (4 - 2) with 2.
+    rewrite dstep_pad by (pow2; lia). change (2 - 2) with 0.
+    eexists. split; [cbn [ucons]; pow2; f_equal; f_equal; f_equal; [lia|]; f_equal; lia | reflexivity].
+  - intros a b c r IH Hb w. cbn [forallb] in Hb. apply andb_true_iff in Hb as [Ha Hb].
+    apply andb_true_iff in Hb as [Hb Hc]. apply andb_true_iff in Hc as [Hc Hr]. apply byte_lt in Ha, Hb, Hc.
+    rewrite enc_spec_cons3. destruct (dupd_quartet w a b c (enc_spec r) Ha Hb Hc) as [w' Hq].
+    rewrite Hq. destruct (IH Hr w') as [c' [Hd Hz]]. rewrite Hd. eexists. split; [reflexivity|exact Hz].
+Qed.
+
+(* T: decoding the encoding returns the input exactly *)
+Theorem decode_enc_spec x : all_bytes_ok x -> b64_decode (enc_spec x) = Some x.
+Proof.
+  intros Hb. unfold b64_decode. rewrite decode_update_dupd by exact dvalid_init.
+  destruct (dupd_enc_spec x Hb 0) as [c' [Hd Hz]]. unfold dctx_init. rewrite Hd.
+  unfold decode_final. rewrite Hz. reflexivity.
+Qed.
+
+Theorem decode_encode_roundtrip x : all_bytes_ok x -> b64_decode (b64_encode x) = Some x.
+Proof. intros Hb. rewrite b64_encode_spec by exact Hb. apply decode_enc_spec. exact Hb. Qed.
+
+Theorem decode_encode_raw_roundtrip x : all_bytes_ok x -> b64_decode (encode_raw x) = Some x.
+Proof. intros Hb. rewrite encode_raw_spec by exact Hb. apply decode_enc_spec. exact Hb. Qed.
